@@ -84,6 +84,8 @@ def main():
             if mm: first = mm.group(1).strip()[:400]
             results[cid] = {"exit": p.returncode, "violation_lines": len(re.findall(r"^VIOLATION", out, re.M)), "first": first}
             print("  check %s %s -> exit %d  %s" % (cid, tier, p.returncode, first[:200]))
+            if p.returncode not in (0, 1):
+                print(out[-800:])
         meta["checks_" + tier] = results
         meta["caught_by"] = [c for c, r in results.items() if r["exit"] == 1]
         dst = os.path.join(VERIF, "seeded", sid)
